@@ -36,6 +36,7 @@ func (v *VC) init() {
 	v.guard = map[*ssa.BasicBlock]string{}
 	v.heapOut = map[*ssa.BasicBlock]*Heap{}
 	v.hdrBefore = map[*ssa.BasicBlock]map[string]TV{}
+	v.hdrLoopHeap = map[*ssa.BasicBlock]*Heap{}
 	v.hdrDecr = map[*ssa.BasicBlock]string{}
 	v.varOut = map[*ssa.BasicBlock]map[string]ssa.Value{}
 	v.addrOut = map[*ssa.BasicBlock]map[string]ssa.Value{}
@@ -605,6 +606,7 @@ func (v *VC) genBlock(b *ssa.BasicBlock, initHeap *Heap) {
 		for _, p := range ins {
 			env := v.paramEnv(v.heapOut[p].clone(), v.varOut[p], v.addrOut[p])
 			env.old = v.preEnv
+			env.loopHeap = env.heap
 			for _, phi := range phis {
 				for i, pred := range b.Preds {
 					if pred == p && phi.Comment != "" {
@@ -627,6 +629,7 @@ func (v *VC) genBlock(b *ssa.BasicBlock, initHeap *Heap) {
 				}
 			}
 		}, v.rootOf, mod, 0)
+		loopEntryHeap := heap.clone()
 		oldClk, newClk := v.advanceClock(heap)
 		ei := &epochInfo{kind: "havoc", parent: heap.epoch, all: mod.call, ghosts: mod.ghosts, unknown: mod.unknown, known: map[string][]string{}, entryClock: oldClk, newClock: newClk, stable: v.P.db.StableGhosts, ghostSet: mod.ghostSet, fieldConds: mod.fieldConds}
 		for k, rs := range mod.known {
@@ -665,6 +668,8 @@ func (v *VC) genBlock(b *ssa.BasicBlock, initHeap *Heap) {
 		env := v.paramEnv(heap, venv, aenv)
 		env.old = v.preEnv
 		env.before = before
+		env.loopHeap = loopEntryHeap
+		v.hdrLoopHeap[b] = loopEntryHeap
 		for _, inv := range ls.Invariants {
 			v.emit("; assume invariant %s", inv.Src)
 			v.assume(g, v.evalSpec(inv, env))
@@ -701,6 +706,7 @@ func (v *VC) genBlock(b *ssa.BasicBlock, initHeap *Heap) {
 			env := v.paramEnv(heap.clone(), v.hdrVenv[s], v.hdrAenv[s])
 			env.old = v.preEnv
 			env.before = v.hdrBefore[s]
+			env.loopHeap = v.hdrLoopHeap[s]
 			for _, in := range s.Instrs {
 				if phi, ok := in.(*ssa.Phi); ok && phi.Comment != "" {
 					for i, pred := range s.Preds {
